@@ -44,7 +44,12 @@ EXCS = {"ValueError": ValueError, "KeyError": KeyError, "RuntimeError": RuntimeE
         "IndexError": IndexError, "LookupError": LookupError,
         # a Deferred can just as well have failed with one of these (a worker that was interrupted)
         "KeyboardInterrupt": KeyboardInterrupt, "SystemExit": SystemExit}
-VALUES = [None, 0, 3, "x", [1, 2]]
+VALUES = [None, 0, 3, "x", [1, 2], {"tuple": [1, 2]}, {"tuple": []}, {"tuple": ["%s", "%d"]}]
+
+
+def dv(v):
+    """JSON has no tuples: {"tuple": [...]} stands for one (a result like any other)."""
+    return tuple(v["tuple"]) if isinstance(v, dict) and "tuple" in v else v
 
 
 def inner_build(spec, env):
@@ -89,12 +94,12 @@ def make_deferred(init):
     inner = None
     if st == "value":
         if init.get("nested"):
-            d2 = defer.succeed(init["value"])
+            d2 = defer.succeed(dv(init["value"]))
             d.callback(None)
             d.addCallback(lambda _: d2)
         else:
-            d.callback(init["value"])
-        state = ("value", init["value"])
+            d.callback(dv(init["value"]))
+        state = ("value", dv(init["value"]))
     elif st == "failure":
         if init.get("how") == "c_callable":
             # the callback that raised is not Python code: the failure's traceback has Twisted's own frames only
@@ -187,8 +192,8 @@ def x_history(ctx, case):
             elif k in ("fire", "fail"):
                 target = inner if inner is not None else d
                 if k == "fire":
-                    target.callback(op[1])
-                    state = ("value", op[1])
+                    target.callback(dv(op[1]))
+                    state = ("value", dv(op[1]))
                 else:
                     target.errback(EXCS[op[1]]("late"))
                     state = ("failure", op[1])
@@ -426,7 +431,7 @@ def run(ctx):
                 if fired:
                     continue
                 fired = True
-                op = ["fire", rng.choice([0, 1, 3, 5])] if op[0] == "fire" else ["fail", rng.choice(list(EXCS))]
+                op = ["fire", rng.choice([0, 1, 3, 5, {"tuple": [1, 2]}])] if op[0] == "fire" else ["fail", rng.choice(list(EXCS))]
             elif op[0] == "match" and op[1] == "succeeded" and rng.random() < 0.5:
                 op = ["match", "succeeded", ["value", G.random_expr(rng, "int", rng.randint(0, 2))]]
             ops.append(op)
